@@ -16,7 +16,7 @@ SEMANTIC = [
     "possible arithmetic underflow/overflow", "invariant not satisfied", "possible division by zero",
     "decreases not satisfied", "could not prove termination", "index out of bounds",
     "possible bit shift underflow/overflow", "unreachable", "recommendation not met",
-    "loop invariant", "failed this", "may be out of range",
+    "loop invariant", "failed this", "may be out of range", "precondition not met",
 ]
 RESOURCE = ["Resource limit", "rlimit", "timed out", "timeout"]
 
